@@ -125,6 +125,7 @@ def judge_heap_state(st, run, strict=False):
     bad = []
     heap, bufs, view = st["heap"], st["bufs"], st["view"]
     stale = st["stale"]["__set__"] if isinstance(st["stale"], dict) else list(st["stale"])
+    mayst = st["mayst"]["__set__"] if isinstance(st.get("mayst"), dict) else list(st.get("mayst") or [])
     final = run[-1]
     obs = final["obs"]
     if st["last"][0] == "obs" and st["last"][1][0] == "unspec":
@@ -138,7 +139,7 @@ def judge_heap_state(st, run, strict=False):
         v = judge(e, o, False)
         if v != "ok":
             m = ["ragged", exp[0], mech_rows(bufs, view[g - 1])]
-            bad.append({"verdict": v, "expected": e, "observed": o, "handle": g, "stale": g in stale,
+            bad.append({"verdict": v, "expected": e, "observed": o, "handle": g, "stale": g in stale, "maystale": g in mayst,
                         "mech": m, "mech_match": judge(m, o, False) == "ok"})
     last = st["last"]
     res = final["res"]
@@ -150,7 +151,7 @@ def judge_heap_state(st, run, strict=False):
             if v not in ("ok", "unspec"):
                 hs = [h for h in _step_handles(st["hist"][-1])]
                 bad.append({"verdict": v, "expected": last[1], "observed": res[1], "handle": 0, "stale": any(h in stale for h in hs),
-                            "mech": last[2], "mech_match": judge(last[2], res[1], False) == "ok"})
+                            "maystale": any(h in mayst for h in hs), "mech": last[2], "mech_match": judge(last[2], res[1], False) == "ok"})
     elif last[0] == "new" and res[0] != "new":
         bad.append({"verdict": "raised" if res[0] == "obs" else "kind", "expected": last, "observed": res, "handle": 0})
     elif last[0] == "none" and res[0] == "obs":
@@ -169,7 +170,7 @@ def _heap_worker(args):
     stats = {"cases": 0, "evals": 0, "ok": 0, "unspec": 0, "nontrivial": 0, "observations": 0}
     bad, samples = [], []
     for body in tlaparse.split_states(text):
-        st = tlaparse.parse_state(body, ("hist", "heap", "bufs", "view", "stale", "last"))
+        st = tlaparse.parse_state(body, ("hist", "heap", "bufs", "view", "stale", "mayst", "last"))
         prog = st.get("hist")
         if not prog or len(prog) < min_len:
             continue
@@ -191,9 +192,9 @@ def _heap_worker(args):
             stats["evals"] += 1
             stats["observations"] += len(st["heap"])
             b = judge_heap_state(st, run)
-            if any(not (x.get("stale") and x.get("mech_match")) for x in b):
+            if any(not x.get("maystale") for x in b):
                 b2 = judge_heap_state(st, exec_heap.run_program(prog, opts, observe="last"))       # confirmation, same process
-                if not any(not (x.get("stale") and x.get("mech_match")) for x in b2):
+                if not any(not x.get("maystale") for x in b2):
                     stats["transient"] = stats.get("transient", 0) + 1
                     b = b2
             if not b:
